@@ -936,21 +936,231 @@ def encodeObj (cfg : EncCfg) (n : Nat) (st : ChoiceSt) : Except Err Bytes :=
 
 end Choice
 
-/-! ## plain prototypes -/
+/-! ## plain prototypes
 
-/-- a Python list of optional integers (`none` = an element that is there but unset), or no list -/
-abbrev ListSpec := Option (List (Option Int))
+  What the objects are meant to be, written with list functions only: no sentinel, no placeholder
+  objects, no sparse dict, no lazily padded list.  An element/slot that is there but unset is `none`. -/
 
-/-- a Python dict over a fixed, ordered key set, created lazily: no dict, `{}` or all keys present
-    (`none` = unset) -/
-abbrev DictSpec := Option (List (Option Int))
+namespace ListSpec
 
-/-- at most one (alternative, value); the value may be unset after "select by touching" -/
-structure OptionSpec where
-  isObj : Bool                         -- False after reset()
-  alloc : Bool                         -- the slots exist (some assignment happened since clear)
-  sel : Option (Nat × Option Int)
-deriving DecidableEq, Repr, Inhabited
+/-- a Python list of optional integers, or no list at all (after `reset()`) -/
+abbrev St := Option (List (Option Int))
+
+/-- how an unset element reads: a schema object of the component type, or `noValue` without one -/
+def unset (typed : Bool) : Comp := if typed then .ph else .hole
+
+def comp (typed : Bool) : Option Int → Comp
+  | some z => .val z
+  | none => unset typed
+
+/-- the object that represents a prototype state: keys 0..n-1 in order -/
+def rep (typed : Bool) : St → SeqOfSt
+  | none => ⟨none⟩
+  | some l => ⟨some (enumFrom 0 (l.map (comp typed)))⟩
+
+def size (s : St) : Nat := (s.getD []).length
+
+def norm (s : St) (i : Int) : Option Nat :=
+  if 0 ≤ i then some i.toNat
+  else if 0 ≤ (size s : Int) + i then some ((size s : Int) + i).toNat else none
+
+/-- the element an argument stores (`cur` = the element already at that position, if any) -/
+def value (typed : Bool) (cur : Option (Option Int)) : Option Arg → Option (Option Int)
+  | none => if typed then some none else none
+  | some (.py z) => if typed || (cur.bind id).isSome then some (some z) else none
+  | some (.obj z) => some (some z)
+  | some .bad => none
+
+/-- `l[i] = v`, or `l.append(v)` at position N -/
+def setAt (typed : Bool) (s : St) (i : Int) (a : Option Arg) : Option St :=
+  match norm s i with
+  | none => none
+  | some j =>
+    let l := s.getD []
+    match value typed l[j]? a with
+    | none => none
+    | some v => some (some (if j < l.length then l.set j v else l ++ [v]))
+
+/-- `for k, a in enumerate(as): l[start + k] = a` — stops at the first refused value -/
+def setMany (typed : Bool) : St → Nat → List Arg → St × Bool
+  | s, _, [] => (s, true)
+  | s, k, a :: as =>
+    match setAt typed s (k : Int) (some a) with
+    | none => (s, false)
+    | some s' => setMany typed s' (k + 1) as
+
+/-- `for a in as: l.append(a)` -/
+def appendMany (typed : Bool) : St → List Arg → St × Bool
+  | s, [] => (s, true)
+  | s, a :: as =>
+    match setAt typed s (size s : Int) (some a) with
+    | none => (s, false)
+    | some s' => appendMany typed s' as
+
+def allSet : List (Option Int) → Option (List Int)
+  | [] => some []
+  | some z :: l => (allSet l).map (z :: ·)
+  | none :: _ => none
+
+def indexOf (z : Int) : List (Option Int) → Nat → Option Nat
+  | [], _ => none
+  | some y :: l, k => if y = z then some k else indexOf z l (k + 1)
+  | none :: _, _ => none
+
+def containsIn (z : Int) : List (Option Int) → Out
+  | [] => .bool false
+  | some y :: l => if y = z then .bool true else containsIn z l
+  | none :: _ => .libErr
+
+def eqItems : List Int → List (Option Int) → Out
+  | [], [] => .bool true
+  | v :: vs, some z :: l => if v = z then eqItems vs l else .bool false
+  | _ :: _, _ :: _ => .libErr
+  | _, _ => .bool false
+
+def isValue (s : St) : Bool :=
+  match s with
+  | none => false
+  | some l => l.all (·.isSome)
+
+/-- reading position `i` (`instantiate=inst`): an existing element, "nothing there", or — with a
+    component type — position N, which appends an unset element (documented) -/
+def getAt (typed : Bool) (s : St) (i : Int) (inst : Bool) : St × Out :=
+  match norm s i with
+  | none => (s, .libErr)
+  | some j =>
+    let l := s.getD []
+    match l[j]? with
+    | some x => (s, .comp (comp typed x))
+    | none =>
+      if !inst then (s, .comp .hole)
+      else if typed && j == l.length then (some (l ++ [none]), .comp .ph)
+      else (s, .libErr)
+
+def step (typed : Bool) (s : St) : SeqOfOp → St × Out
+  | .setItem i a => (match setAt typed s i (some a) with | some s' => (s', .unit) | none => (s, .lookupErr))
+  | .setPos i a => (match setAt typed s i (some a) with | some s' => (s', .unit) | none => (s, .libErr))
+  | .setNone i => (match setAt typed s i none with | some s' => (s', .unit) | none => (s, .libErr))
+  | .append a => (match setAt typed s (size s : Int) (some a) with | some s' => (s', .unit) | none => (s, .lookupErr))
+  | .extend as =>
+    (match appendMany typed s as with
+     | (s', true) => (some (s'.getD []), .unit)
+     | (s', false) => (s', .lookupErr))
+  | .setSlice a b as =>
+    (match (if size s = 0 then some 0 else (sliceRange (size s) a b).head?) with
+     | none => (s, .lookupErr)
+     | some start =>
+       match setMany typed s start as with
+       | (s', true) => (s', .unit)
+       | (s', false) => (s', .lookupErr))
+  | .sort =>
+    (match s with
+     | none => (s, .libErr)
+     | some l =>
+       if l.length ≤ 1 then (s, .unit)
+       else match allSet l with
+         | some zs => (some ((SeqOf.sortInts zs).map some), .unit)
+         | none => (s, .libErr))
+  | .reverse => (match s with | none => (s, .libErr) | some l => (some l.reverse, .unit))
+  | .clear => (some [], .unit)
+  | .reset => (none, .unit)
+  | .clone flag => if flag then (s, .unit) else (none, .unit)
+  | .len => (s, .nat (size s))
+  | .iter => (s, .comps ((s.getD []).map (comp typed)))
+  | .contains z => (s, containsIn z (s.getD []))
+  | .getItem i => let r := getAt typed s i true; (r.1, r.2.asLookup)
+  | .getPos i inst => getAt typed s i inst
+  | .getSlice a b => (s, .comps (((sliceRange (size s) a b).filterMap fun k => (s.getD [])[k]?).map (comp typed)))
+  | .count z =>
+    (match s with
+     | none => (s, .libErr)
+     | some l => match allSet l with
+       | some zs => (s, .nat (zs.count z))
+       | none => (s, .libErr))
+  | .index z =>
+    (match s with
+     | none => (s, .libErr)
+     | some l => match indexOf z l 0 with
+       | some k => (s, .nat k)
+       | none => (s, .valueErr))
+  | .pretty => (s, .comps (if isValue s then (s.getD []).map (comp typed) else []))
+  | .eqTo vs =>
+    (match s with
+     | none => (s, .libErr)
+     | some l => (s, if vs.length ≠ l.length then .bool false else eqItems vs l))
+  | .encode => (s, .unit)
+
+def abs (s : St) : Option Val :=
+  match s with
+  | none => none
+  | some l => (allSet l).map (fun zs => .seqOf (zs.map .int))
+
+/-- without a component type every element is set (there is no schema object to hold a place) -/
+def Inv (typed : Bool) (s : St) : Prop := typed = false → ∀ l, s = some l → ∀ x ∈ l, x ≠ none
+
+/-- operations the documentation covers (or that must fail): everything except
+    * writes beyond position N ("sparse" assignment, accepted by the library since 0.4.6),
+    * `setComponentByPosition(i)` without a value on an existing element when there is no component type,
+    * (finding T5) reads beyond position N when there is a component type -/
+def Allowed (typed : Bool) (s : St) : SeqOfOp → Bool
+  | .setItem i _ | .setPos i _ => (match norm s i with | some j => j ≤ size s | none => true)
+  | .setNone i => (match norm s i with | some j => if typed then j ≤ size s else size s ≤ j | none => true)
+  | .getItem i => (match norm s i with | some j => !typed || j ≤ size s | none => true)
+  | .getPos i inst => (match norm s i with | some j => !typed || !inst || j ≤ size s | none => true)
+  | _ => true
+
+/-- ill-formed: a position outside the documented range or a value the component type refuses
+    (for multi-element assignments: already the first one) -/
+def illFormed (typed : Bool) (s : St) : SeqOfOp → Bool
+  | .setItem i a | .setPos i a =>
+    (match norm s i with
+     | none => true
+     | some j => j ≤ size s && (value typed (s.getD [])[j]? (some a)).isNone)
+  | .setNone i => (match norm s i with | none => true | some j => !typed && size s ≤ j)
+  | .append a => (value typed none (some a)).isNone
+  | .extend (a :: _) => (value typed none (some a)).isNone
+  | .setSlice a b as =>
+    (match (if size s = 0 then some 0 else (sliceRange (size s) a b).head?), as with
+     | none, _ => true
+     | some k, x :: _ => (value typed (s.getD [])[k]? (some x)).isNone
+     | _, _ => false)
+  | .getItem i | .getPos i true =>
+    (match norm s i with
+     | none => true
+     | some j => (s.getD [])[j]?.isNone && (!typed || size s < j))
+  | _ => false
+
+/-- accessors of existing members (and the accessors that never instantiate) -/
+def isReader (_typed : Bool) (s : St) : SeqOfOp → Bool
+  | .len | .iter | .contains _ | .getSlice _ _ | .count _ | .index _ | .pretty | .eqTo _ | .encode => true
+  | .getPos _ false => true
+  | .getItem i | .getPos i true => (match norm s i with | some j => decide (j < size s) | none => false)
+  | _ => false
+
+def run (typed : Bool) : St → List SeqOfOp → St × List Out
+  | s, [] => (s, [])
+  | s, op :: ops =>
+    let r := step typed s op
+    let rest := run typed r.1 ops
+    (rest.1, r.2 :: rest.2)
+
+/-- every op of the history is allowed in the state it meets -/
+def AllowedRun (typed : Bool) : St → List SeqOfOp → Prop
+  | _, [] => True
+  | s, op :: ops => Allowed typed s op = true ∧ AllowedRun typed (step typed s op).1 ops
+
+end ListSpec
+
+namespace SeqOf
+
+def run (typed : Bool) : SeqOfSt → List SeqOfOp → SeqOfSt × List Out
+  | st, [] => (st, [])
+  | st, op :: ops =>
+    let r := step typed st op
+    let rest := run typed r.1 ops
+    (rest.1, r.2 :: rest.2)
+
+end SeqOf
 
 /-! ## the NoValue dunder table -/
 
